@@ -1,29 +1,188 @@
-"""Static description of the checks: which units / harnesses decide which property.
-
-A Verus unit takes part in the check of property P iff one of its extracted functions
-carries tag P (`//@ tags`) -- that is computed from the templates, not listed here.
-Listed here: per-property prose for MANIFEST/evidence, assumptions, Kani harnesses.
+"""Static description of the checks: which Kani harnesses / side conditions decide which property, and the prose for
+MANIFEST and evidence. A Verus unit takes part in the check of property P iff one of its extracted functions (or a tagged
+lemma) carries tag P; that is computed from the templates, not listed here.
 """
 
-# assumptions shared by every Verus unit (DESIGN.md section 9)
 COMMON_ASSUMPTIONS = [
     "A1: slices/Vecs have length <= isize::MAX (Rust guarantee), stated as requires at the boundary",
     "usize is 64 bit; machine integers are modelled exactly by Verus (overflow is an obligation)",
     "R2: u16/u32/u64/i16/i32::to_be_bytes modelled by trusted v_be() with the big-endian spec",
-    "vstd specifications of Vec/slice/Option/Result are trusted",
-    "trusted: Verus 0.2026.09.13 + Z3, the extractor (tools/extract.py) and its rewrite rules R1-R12 as logged per run",
+    "vstd specifications of Vec/slice/Option/Result/String are trusted; std models added by the units are listed under trusted_items_scan",
+    "trusted: Verus 0.2026.09.13 + Z3, Kani 0.68 + CBMC, rustc; the extractor (tools/extract.py) and its rewrite rules R1-R15 as logged per run",
 ]
+A2 = "A2: fewer than 2^24 samples per track and a movie header (moov) below 4 GiB (`a2_fits` / `fits_*` predicates, stated as requires of finish)"
+A3 = "A3: a single frame / parameter string is shorter than 2^32 bytes"
+A4 = "A4: fewer than 2^32 fragments per FragmentedMuxer"
+A5 = "A5: fewer than 2^64 frames per muxer (frame counters)"
+SINK = "the sink is environment: std::io::Write::write_all is assumed to append all of the buffer or to fail after a prefix (prelude/sink.vrs); the muxer only ever calls write_all"
+FLOAT = "IEEE-754 doubles are uninterpreted in Verus (prelude/f64.vrs); their arithmetic facts are established by the Kani harnesses k_ticks_nearest (complete) and kb_ticks_monotone / kb_stats_secs (bounded)"
+BOUNDED_LEAVES = ("two leaf contracts are assumed in unit layout and checked on the unmodified functions only by BOUNDED Kani harnesses: "
+                  "SampleTables::from_samples (0..3 samples) and compute_interleave_schedule (up to 2 video + 2 audio samples); "
+                  "iterator-adapter chains and sort_by_key are outside Verus")
+
+SCHED = ['kb_schedule_1v1a', 'kb_schedule_2v1a', 'kb_schedule_1v2a']
+SCHED_T = ['kb_schedule_2v2a']
+FROMS = ['kb_from_samples_0', 'kb_from_samples_1', 'kb_from_samples_2']
+FROMS_T = ['kb_from_samples_3']
+KEYF = ['kb_is_keyframe_h264', 'kb_is_keyframe_h265', 'kb_is_keyframe_av1_vp9']
+LANG = ['k_lang', 'k_lang_und', 'k_lang_frag']
 
 PROPS = {
+    'C01': {
+        'title': 'Every sample in the file resolves to exactly the bytes and key flag submitted',
+        'technique': 'Verus contracts on the extracted writer, finalize_standard / finalize_fast_start (file == layout spec, offsets in schedule order) + lemma from layout to reader resolution; bounded Kani for two leaf contracts',
+        'text': 'Unbounded deductive proof (Verus) on the real text of write_video_sample(_with_dts)/write_audio_sample (one sample per accepted frame with the payload in MP4 framing and the key flag), '
+                'of the table boxes (exact bytes of stsz/stco/stsc/stss) and of finalize/finalize_standard/finalize_fast_start: the bytes written are ftyp, mdat (payload in schedule order) and moov '
+                'with chunk offsets equal to the absolute position of each sample (layout_ok), from which lemma_layout_resolves derives that every sample of both tracks resolves through its own tables to its payload.',
+        'note': BOUNDED_LEAVES + '; ' + A2 + '; ' + A3,
+        'kani': FROMS + SCHED, 'kani_thorough': FROMS_T + SCHED_T,
+        'assumptions': [A2, A3, BOUNDED_LEAVES, SINK],
+    },
+    'C02': {
+        'title': 'Every emitted byte stream is a well-formed ISO-BMFF tree with mandatory boxes',
+        'technique': 'Verus: every box builder proved equal to a specification built with mk_box from the standards; tiling lemmas over the specifications; file/segment output specs',
+        'text': 'Each of the ~80 box builders (progressive and fragmented), extracted from /repo, is proved to return exactly mk_box(type, children...) as prescribed; tiling lemmas show that init segment, media segment and moov '
+                'are trees of boxes whose sizes tile their parents with the mandatory children and consistent entry counts; finalize proves the top-level order ftyp, mdat?, moov.',
+        'note': A2 + '; box sizes above 4 GiB are outside the claim except where listed as findings',
+        'kani': [], 'assumptions': [A2],
+    },
+    'C03': {
+        'title': 'Decode and composition timing in the file equals the submitted timestamps',
+        'technique': 'Verus: writer representation invariant (exact DTS distances), stts/ctts run-length round trip, mdhd duration = sum; Kani for the tick rounding and the from_samples leaf',
+        'text': 'The writer invariant track_wf (every sample but the last carries the exact distance to its successor, computed from absolute ticks) is proved for all call histories; the stts/ctts builders are proved to be '
+                'the maximal run-length encoding whose expansion is the duration list; the public calls are proved to hand ticks(pts)/ticks(dts) unchanged to the writer.',
+        'note': FLOAT + '; ' + BOUNDED_LEAVES,
+        'kani': FROMS + ['kb_total_duration'], 'kani_thorough': FROMS_T + ['k_ticks_nearest', 'kb_ticks_monotone'],
+        'assumptions': [FLOAT, BOUNDED_LEAVES],
+    },
+    'C04': {
+        'title': 'Calls succeed iff the documented input contract holds; errors name the violation',
+        'technique': 'Verus: `r is Ok <==> accept(old(self), args)` and error-variant naming on every public write/finish/build entry point, over the representation invariants',
+        'text': 'For write_video, write_video_with_dts, write_audio, encode_video, encode_audio, finish*, build (and the writer-level and fragmented equivalents) the extracted real functions are proved to succeed exactly '
+                'when the accept predicate transcribed from the property statement holds in the current abstract state, and each error variant is proved to name a conjunct that this call violated; payload validators '
+                '(ADTS, Opus, parameter-set extraction) are proved against their specifications.',
+        'note': FLOAT + '; ' + A3 + '; ' + A5,
+        'kani': ['kb_is_keyframe_h264'], 'assumptions': [FLOAT, A3, A5],
+    },
+    'C05': {
+        'title': 'Rejected calls leave no trace',
+        'technique': 'Verus: `r is Err ==> *final(self) == *old(self)` (whole-struct equality) on every frame-writing entry point',
+        'text': 'Whole-state equality on every error exit of Mp4Writer::write_video_sample(_with_dts)/write_audio_sample, Muxer::write_video/write_video_with_dts/write_audio/encode_* and FragmentedMuxer::write_video, '
+                'proved on the extracted real text; every later decision, statistic and output byte is a function of that state.',
+        'note': A3,
+        'kani': [], 'assumptions': [A3],
+    },
+    'C06': {
+        'title': 'Finalisation happens exactly once and accounts for every byte and frame',
+        'technique': 'Verus: finish-once flags, frame conditions (sink untouched by writes), byte accounting through write_counted, statistics contracts',
+        'text': 'Write calls are proved not to touch the sink; finalize sets the flag before the first write and refuses re-entry; bytes_written is proved to equal the number of bytes the sink accepted; '
+                'the statistics equal the queue lengths and the largest presentation end over all samples (max_end_pts contract).',
+        'note': SINK + '; ' + A2 + '; seconds = ticks/90000 is a float division (bounded Kani harness kb_stats_secs)',
+        'kani': [], 'kani_thorough': ['kb_stats_secs'], 'assumptions': [SINK, A2, FLOAT],
+    },
+    'C07': {
+        'title': 'The codec configuration in the file is exactly that of the submitted stream',
+        'technique': 'Verus: parameter-set extraction == first units of the Annex B unit list; AV1 header fields == transcription of AV1 5.5; config records carry the bytes; Kani for the AudioSpecificConfig table',
+        'text': 'extract_avc_config / extract_hevc_config are proved to return the first SPS/PPS (VPS) of the unit list for all byte strings; extract_av1_config returns the bytes of the first sequence-header OBU and fields equal '
+                'to the standard\'s syntax (except the recorded monochrome finding); the sample entries and configuration records are proved byte-for-byte; builder-supplied parameter sets are moved unchanged.',
+        'note': 'VP9: the accepted form is the library\'s own documented header layout (no external standard claim); ' + A3,
+        'kani': ['k_asc'], 'assumptions': [A3],
+    },
+    'C08': {
+        'title': 'Fast-start changes only the layout; both layouts address samples correctly',
+        'technique': 'Verus: both finalize functions proved against the same layout specification with the flag as parameter; moov length independent of offset values',
+        'text': 'finalize_standard and finalize_fast_start are proved against layout_ok(.., fast) with identical table predicates (tables_are) and sample positions relative to the media data; the two-pass measurement is justified by '
+                'lemma_moov_len_indep (moov length depends on the tables only through their shape); the flag is plumbed unchanged from the builder.',
+        'note': BOUNDED_LEAVES + '; ' + A2,
+        'kani': FROMS + SCHED, 'kani_thorough': FROMS_T + SCHED_T, 'assumptions': [A2, BOUNDED_LEAVES],
+    },
+    'C09': {
+        'title': 'Audio/video synchronisation of the input is preserved',
+        'technique': 'Verus: audio durations are exact PTS distances and tracks carry no edit list; the residual obligation (first audio PTS == first video PTS) is undischargeable and recorded as a finding',
+        'text': 'The writer contract proves that audio sample durations are the exact distances of the submitted timestamps, so audio sample j decodes at pts_j - pts_0; the trak builders emit [tkhd, mdia] only. '
+                'Synchronisation therefore reduces to one obligation that no guard establishes; it is kept as a named failing lemma (known finding) so that any other C09 regression is still reported.',
+        'note': 'decidable only up to the recorded finding',
+        'kani': [], 'assumptions': [],
+    },
+    'C10': {
+        'title': 'Fragmented muxing conserves samples across any write/flush interleaving',
+        'technique': 'Verus: representation invariant of FragmentedMuxer + per-operation contracts (induction over all interleavings) + location lemma over the segment specification',
+        'text': 'wf() is established by new and preserved by every method; write_video appends exactly the submitted sample or changes nothing; flush_segment returns exactly spec_media_segment(queue, seq, first DTS) and empties the queue; '
+                'the location lemma proves that each sample is found at data_offset + preceding sizes.',
+        'note': A4 + '; A2 for the init segment; fragments of 4 GiB or more are a recorded finding',
+        'kani': [], 'assumptions': [A4, A2],
+    },
+    'C11': {
+        'title': 'Fragmented segments carry a consistent timeline and a stable init segment',
+        'technique': 'Verus: trun/tfdt field contracts, tfdt == first DTS of the segment, cached init segment == spec of the immutable config',
+        'text': 'build_trun/build_tfdt are proved field by field; flush_segment is proved to write the first queued DTS as base decode time, from which the cross-segment statements follow by lemma; init_segment is proved equal to a '
+                'specification of the configuration whether cached or not.',
+        'note': 'duration / composition-offset exactness beyond 32 bits are recorded findings', 'kani': [], 'assumptions': [A4],
+    },
+    'C12': {
+        'title': 'No public entry point panics, overflows or hangs on any input',
+        'technique': 'Verus built-in obligations (overflow, bounds, unwrap, termination) on every extracted function; assert_invariant! turned into proof obligations (R4); Kani bounded for what Verus cannot read',
+        'text': 'Every function under contract in every unit is verified with Verus\' arithmetic, index, division, precondition and termination obligations for all argument values and all reachable object states '
+                '(public functions carry no precondition beyond A1-A5 and the representation invariants that constructors establish).',
+        'note': 'functions not under contract are listed in DESIGN.md section 9; ' + A2 + '; ' + A3 + '; ' + A4 + '; ' + A5,
+        'kani': KEYF + FROMS + SCHED + ['kb_total_duration'] + LANG, 'kani_thorough': FROMS_T + SCHED_T,
+        'assumptions': [A2, A3, A4, A5],
+    },
+    'C13': {
+        'title': 'Sink failures and partial writes never corrupt, duplicate or hide data',
+        'technique': 'Verus: sink protocol (requires !failed at all 17 write sites), accepted bytes only ever extended, failed write always reported, finalized flag set first',
+        'text': 'With the assumed contract of write_all, every call site in finalize_* is proved to be reached only while no write has failed, the accepted bytes are proved to be an extension of the previous ones at every exit, '
+                'a failed sink implies an error result, and a second finish is proved to write nothing.',
+        'note': SINK,
+        'kani': [], 'assumptions': [SINK],
+    },
     'C14': {
         'title': 'Re-framing (Annex B to length-prefixed NALs, ADTS to raw AAC) is exact',
-        'level': 'proof',
-        'technique': 'Verus contracts on the extracted real functions: annexb_to_avcc(d) == avcc_spec(d) for all byte strings',
-        'text': 'Unbounded deductive proof (Verus/Z3) that the real find_start_code, AnnexBNalIter::next, annexb_to_avcc and hevc_annexb_to_hvcc, '
-                'extracted mechanically from /repo on every run, return exactly the length-prefixed image of the unit list defined from the '
-                'statement of C14, and that adts_to_raw returns the slice between header and declared frame length.',
-        'note': 'A3: inputs shorter than 4 GiB so that `len as u32` is exact; to_be_bytes trusted (R2); for-loops over the user iterator desugared by R6.',
-        'design_ref': 'DESIGN.md section 6 C14',
-        'assumptions': ["A3: single access units are shorter than 2^32 bytes"],
+        'technique': 'Verus contracts on the extracted real functions: annexb_to_avcc(d) == avcc_spec(d) for all byte strings; adts_to_raw == header/length slice',
+        'text': 'Unbounded deductive proof (Verus/Z3) that the real find_start_code, AnnexBNalIter::next, annexb_to_avcc and hevc_annexb_to_hvcc return exactly the length-prefixed image of the unit list defined from the '
+                'statement of C14, and that adts_to_raw accepts exactly the structurally valid frames and returns the slice between header and declared frame length.',
+        'note': A3 + '; to_be_bytes trusted (R2); for-loops over the user iterator desugared by R6; ADTS diagnostics dropped by R9',
+        'kani': [], 'assumptions': [A3],
+    },
+    'C15': {
+        'title': 'Audio and video samples are interleaved in timestamp order in the media data',
+        'technique': 'Verus: storage order == schedule order in both layouts (unbounded); schedule contract (permutation, per-track order, merge by timestamp) checked by bounded Kani',
+        'text': 'Both finalize functions are proved to store the j-th schedule entry directly after the j earlier ones and to assign its offset accordingly, using the same functional schedule in every pass; '
+                'the ordering clause of the schedule itself (sort_by_key) is outside Verus and is checked bounded.',
+        'note': BOUNDED_LEAVES,
+        'kani': SCHED, 'kani_thorough': SCHED_T, 'assumptions': [BOUNDED_LEAVES],
+    },
+    'C16': {
+        'title': 'No numeric field is silently truncated; declared durations match the tables',
+        'technique': 'Verus: value-level postconditions dec(field) == mathematical value on every fixed-width field; fit conditions must be discharged by real guards',
+        'text': 'Every fixed-width numeric field of every builder has a clause stating its mathematical value; Verus leaves narrowing casts unspecified outside the target range, so each clause is provable only where a guard dominates the cast. '
+                'The guards of finalize (mdat size, chunk offsets) and of the writer (32-bit sample deltas) are proved sufficient.',
+        'note': 'fields without a guard are recorded findings (one obligation each)',
+        'kani': FROMS, 'kani_thorough': FROMS_T, 'assumptions': [A2],
+    },
+    'C17': {
+        'title': 'Output is a pure function of the call sequence; equivalent API paths agree',
+        'technique': 'functional contracts (results are spec functions of arguments and old state), delegation/alias contracts in Verus and Kani, Send/Sync by the trait solver, deny-list scan for ambient state',
+        'text': 'Every function on the muxing path is verified against, or assumed with, a contract whose result is a function of its arguments and old(self); alias pairs and finish variants are proved equal; '
+                'Muxer<W>: Send/Sync follows for all W from the trait solver. Thread schedules are not modelled: independence of threads is claimed only via the side condition "no ambient mutable state", which is a mechanical scan.',
+        'note': 'reduced claim: threads are not modelled by either verifier (DESIGN.md section 6 C17)',
+        'kani': ['k_aliases', 'k_send_sync', 'kb_is_keyframe_h264'], 'assumptions': [],
+        'scan': True,
+    },
+    'C18': {
+        'title': 'Title, creation date and language are stored faithfully and touch nothing else',
+        'technique': 'Verus: udta/ilst builders against the specification, calendar conversion against the civil-date function, language packing by complete Kani enumeration',
+        'text': 'build_udta_box / build_ilst_string_item are proved to emit exactly the name and date items with the UTF-8 bytes, or nothing; days_to_ymd is proved to invert days_from_civil up to year 9999; '
+                'the 26^3 language codes round-trip through the packer (both copies); metadata is proved to influence only the language fields and the udta child.',
+        'note': 'format! rendering ({:04}/{:02}) and str::as_bytes are assumed std semantics (R10)',
+        'kani': LANG, 'assumptions': ['std formatting of {:04}/{:02} integers and str::as_bytes == UTF-8 bytes are assumed'],
+    },
+    'C19': {
+        'title': 'Header boxes and configuration records follow their specifications\' layouts',
+        'technique': 'Verus: one contract per fixed-layout builder with size, version/flags and dec(field) clauses taken from ISO/IEC 14496-12/-14/-15 and the AV1/VP9/Opus bindings',
+        'text': 'Each header box and configuration record builder (progressive and fragmented) is proved against the field table of its defining specification for all arguments; deviations of the code are single named failing obligations '
+                '(known findings), with the remaining fields still pinned relative to the finding.',
+        'note': 'oracle = the standards, not the golden file',
+        'kani': [], 'assumptions': [],
     },
 }
